@@ -44,6 +44,124 @@ def is_last_segment(e, base_pred=OFFS):
         and is_off(b[2], 1, base_pred) and is_off(b[3], 2, base_pred)
 
 
+def _fmt_template(v):
+    """decode rustc's format_args template constant b"..." into ['lit', ARG, 'lit', ...]; None if the encoding is not understood"""
+    import ast
+    try:
+        bs = ast.literal_eval(v)
+    except Exception:
+        return None
+    if not isinstance(bs, bytes):
+        return None
+    out, i = [], 0
+    while i < len(bs):
+        b = bs[i]
+        if b == 0:
+            return out if i == len(bs) - 1 else None
+        if b < 0x80:
+            out.append(bs[i + 1:i + 1 + b].decode("utf-8", "replace"))
+            i += 1 + b
+        elif b == 0xC0:
+            out.append(("ARG",))
+            i += 1
+        else:
+            return None
+    return None
+
+
+def _own_consts(b, pred):
+    out = []
+    for blk in b["blocks"]:
+        for st in blk["stmts"]:
+            if st["k"] == "assign":
+                rv = st["rv"]
+                for o in ([rv.get("a"), rv.get("b")] + list(rv.get("fields", []))):
+                    if isinstance(o, dict) and o.get("k") == "const" and pred(o, st):
+                        out.append((o, st))
+        t = blk["term"]
+        if t["k"] == "call":
+            for o in t["args"]:
+                if o.get("k") == "const" and pred(o, t):
+                    out.append((o, t))
+    return out
+
+
+def r11_7(ctx, rep):
+    """R11.7: the chunk file name writer and parser agree (sibling codec tables): same literal prefix/suffix, and the length the parser
+    insists on is the length the writer always produces."""
+    rep.rule("R11.7", "file-name codec tables agree: the literal prefix and suffix written by Config::chunk_file_name are the ones "
+                      "parse_chunk_file_name strips (a miss is an error, not a skip), the parser's required length equals the writer's padded "
+                      "width W plus its (W-1)/G separators, and W >= 20 digits so no u64 offset overflows the width")
+    B = ctx.facts.bodies
+    wk = [k for k in B if re.search(r"config::Config::chunk_file_name$", k)]
+    pk = [k for k in B if re.search(r"config::Config::parse_chunk_file_name$", k)]
+    if not rep.expect("R11.7", "writer and parser of the chunk file name", len(wk) == 1 and len(pk) == 1, "found %d/%d" % (len(wk), len(pk))):
+        return
+    w, p = B[wk[0]], B[pk[0]]
+    tpl = [_fmt_template(o["v"]) for o, _s in _own_consts(w, lambda o, s: re.match(r"&\[u8; \d+\]$", o.get("ty", "")))]
+    tpl = [t for t in tpl if t]
+    if not rep.expect("R11.7", "writer's format template", len(tpl) == 1 and len(tpl[0]) == 3 and tpl[0][1] == ("ARG",)
+                      and isinstance(tpl[0][0], str) and isinstance(tpl[0][2], str),
+                      "expected `<prefix>{}<suffix>`, found %s" % (tpl,), where="%s:%s" % (w["file"], w["line"])):
+        return
+    prefix, suffix = tpl[0][0], tpl[0][2]
+    # the padded-number formatter: the unique crate-local callee of the writer, followed down to the constant width and the group size
+    def local_callees(b):
+        return [blk["term"]["callee"].get("rkey") or blk["term"]["callee"].get("key") for blk in b["blocks"]
+                if blk["term"]["k"] == "call" and (blk["term"]["callee"].get("rlocal") or blk["term"]["callee"].get("local"))
+                and not blk["term"].get("exp")]
+    widths, groups, seen, work = [], [], set(), [k for k in local_callees(w) if k]
+    while work:
+        k = work.pop()
+        if k in seen or k not in B:
+            continue
+        seen.add(k)
+        b = B[k]
+        widths += [int(o["int"]) for o, t in _own_consts(b, lambda o, s: o.get("ty") == "usize" and "int" in o and s.get("k") == "call"
+                                                         and (s["callee"].get("rlocal") or s["callee"].get("local")))]
+        groups += [int(o["int"]) for o, st in _own_consts(b, lambda o, s: o.get("ty") == "usize" and "int" in o and s.get("k") == "assign"
+                                                          and s["rv"].get("op") == "Rem")]
+        work += [x for x in local_callees(b) if x]
+        work += [c for c in B if c.startswith(k + "::{closure")]
+    strip = {}
+    for blk in p["blocks"]:
+        t = blk["term"]
+        if t["k"] == "call" and re.search(r"str>::strip_(suffix|prefix)$|<impl str>::strip_(suffix|prefix)$", t["callee"]["path"]):
+            kind = "suffix" if "strip_suffix" in t["callee"]["path"] else "prefix"
+            cs = [o for o in t["args"] if o.get("k") == "const" and o.get("ty") == "&str"]
+            if cs:
+                import ast
+                strip.setdefault(kind, []).append(ast.literal_eval(cs[0]["v"]))
+    lens = [int(o["int"]) for o, st in _own_consts(p, lambda o, s: o.get("ty") == "usize" and "int" in o and s.get("k") == "assign"
+                                                   and s["rv"].get("op") in ("Ne", "Eq"))]
+    where_p = "%s:%s" % (p["file"], p["line"])
+    ok = True
+    if strip.get("prefix") != [prefix] or strip.get("suffix") != [suffix]:
+        ok = False
+        rep.violation("R11.7", "file-name|literals-differ", "chunk file name literals",
+                      "the writer produces `%s<number>%s` but the parser strips prefix %s / suffix %s: files written by this code are not "
+                      "recognised (or foreign files are) when the directory is listed at open" % (prefix, suffix, strip.get("prefix"), strip.get("suffix")),
+                      where=where_p)
+    if not (len(set(widths)) == 1 and len(set(groups)) == 1 and len(set(lens)) == 1):
+        rep.unresolved("R11.7", "file-name|width-constants", "padded width %s, group %s, parser length %s: expected one of each" % (widths, groups, lens),
+                       where=where_p)
+        return
+    W, G, L = widths[0], groups[0], lens[0]
+    if W < 20:
+        ok = False
+        rep.violation("R11.7", "file-name|width-below-u64", "padded width %d" % W,
+                      "a u64 offset has up to 20 digits: wider numbers change the name length and the parser rejects the store's own files",
+                      where="%s:%s" % (w["file"], w["line"]))
+    if L != W + (W - 1) // G:
+        ok = False
+        rep.violation("R11.7", "file-name|length-differs", "parser length %d" % L,
+                      "the writer always produces %d digits + %d separators = %d characters, the parser insists on %d: every chunk file is "
+                      "refused at open" % (W, (W - 1) // G, W + (W - 1) // G, L), where=where_p)
+    if ok:
+        rep.ok("R11.7", "chunk_file_name / parse_chunk_file_name", "`%s` + %d digits grouped by %d (= %d chars) + `%s` on both sides"
+               % (prefix, W, G, L, suffix), where=where_p)
+
+
 def run(ctx, rep):
     rep.rule("R11.1", "the ChunkId given to the chunk-creating call at rotation is the end of the open chunk's last segment, read before self.open is replaced")
     rep.rule("R11.2", "the value pushed to global_offsets when a record is journalled is offsets[len-1] + (byte count returned by encoding that record into pending_data)")
@@ -283,6 +401,9 @@ def run(ctx, rep):
         rep.violation("R11.5", "on_disk_size|provenance", "on_disk_size",
                       "the reported size is not `end of the open chunk - start of the oldest retained chunk (the open chunk's own start when "
                       "no closed chunk is retained)`: %s" % (detail if rv else "unresolved"), where=g.where(g.entry))
+
+    # ---------------- R11.7 -------------------------------------------------------------
+    r11_7(ctx, rep)
 
     # ---------------- R11.6 -------------------------------------------------------------
     rep.rule("R11.6", "= R03.4 / R04.2 / R04.8: every batch element is written completely (write_all) to the file whose name is its offset")
